@@ -171,6 +171,10 @@ See also: fixed, rational
         #  normally that's the guard digits, but it could be more if display<precision
         #    or less if display>precision
         gv = (v + self.__scaledr) // self.__scaledd
+        sign = ''
+        if gv < 0:  # format the magnitude; floor division would borrow from the integer part
+            sign = '-'
+            gv = -gv
         if Guarded.display <= Guarded.precision:
             s = Guarded.__dfmt % (gv // self.__scaled, gv % self.__scaled)
         else:
@@ -178,7 +182,7 @@ See also: fixed, rational
             #  we'll show <precision> digits, then _, then (display-precision) digits
             gvp = gv % self.__scaled
             s = Guarded.__dfmt % (gv // self.__scaled, gvp // self.__scaledg, gvp % self.__scaledg)
-        return s
+        return sign + s
 
     def __init__(self, arg, setval=False):
         "create a new Guarded object"
